@@ -1,5 +1,5 @@
 #!/usr/bin/env python3
-"""tools/automut.py <workers> <mutants-per-file> [seed]
+"""tools/automut.py <workers> <mutants-per-file> [seed] [file-substring,...]
 
 Cheap mutation run (complements the hand-written seeded changes): single-token mutations of the
 files the properties are anchored in.  For each mutant, in a per-worker scratch copy of /repo and
@@ -141,10 +141,13 @@ def main():
     workers = int(sys.argv[1])
     per_file = int(sys.argv[2])
     seed = int(sys.argv[3]) if len(sys.argv) > 3 else 0
+    only = sys.argv[4].split(",") if len(sys.argv) > 4 else None
     rnd = random.Random(seed)
     jobs = queue.Queue()
     n = 0
     for rel in FILES:
+        if only and not any(o in rel for o in only):
+            continue
         lines, cands = candidates("/repo/" + rel)
         rnd.shuffle(cands)
         for c in cands[:per_file]:
